@@ -64,7 +64,7 @@ def drive(ctx, cases_path, out, extra):
 
 
 def judge(ctx, events, path):
-    res = ctx.validate_trace("Trace_BIP276.tla", "Trace_BIP276.cfg", path, len(events))
+    res = ctx.validate_trace("Trace_BIP276.tla", "Trace_BIP276.cfg", path, len(events), heap="8g")
     for r in res["rejects"]:
         e = events[r["i"] - 1]
         key, what = classify(e, r["why"])
@@ -91,11 +91,17 @@ def run(ctx):
     extra = ctx.pick(["-corrupt", "12"], ["-all", "-corrupt", "1000"])
     events = drive(ctx, cpath, out, extra)
     judge(ctx, events, out)
+    # one payload above half a megabyte (text above a million characters), on its own (13 MB of trace)
+    out2 = os.path.join(ctx.tmp, "c17big.ndjson")
+    big = drive(ctx, None, out2, ["-big"])
+    judge(ctx, big, out2)
+    os.unlink(out2)
+    events = events + big
     ctx.cov["traces_validated_against_impl"] += len(events)
     ctx.count_cases(len(events), {(e["ev"], bytes(e.get("text", [])).hex()) for e in events})
     ctx.cov["tlc_generated_cases_replayed"] = len(cases)
     for e in events[:1] + events[len(events) // 2:len(events) // 2 + 2]:
-        ctx.sample(dict(ev=e["ev"], text=bytes(e["text"]).decode("latin1"), ok=e.get("ok"), version=e.get("version"), network=e.get("network")))
+        ctx.sample(dict(ev=e["ev"], text=bytes(e["text"]).decode("latin1")[:200], ok=e.get("ok"), version=e.get("version"), network=e.get("network")))
 
 
 def replay(ctx, case):
